@@ -45,6 +45,20 @@ theorem i16_lt_lit (x : Int16) (c : Int16) : x < c ↔ x.toInt < c.toInt := Int1
 theorem i16_eq_zero (x : Int16) (h : x.toInt = 0) : x = 0 := by
   apply Int16.toInt_inj.1; simpa using h
 
+theorem i16_dec_lt0 {x : Int16} (h : decide (x < 0) = true) : x.toInt < 0 := by
+  have := (i16_lt_lit _ _).mp (of_decide_eq_true h); simpa using this
+
+theorem i16_dec_gt0 {x : Int16} (h : decide (x > 0) = true) : 0 < x.toInt := by
+  have := (i16_lt_lit _ _).mp (of_decide_eq_true h); simpa using this
+
+theorem i16_dec_eq0 {x : Int16} (h1 : ¬ decide (x < 0) = true) (h2 : ¬ decide (x > 0) = true) :
+    x.toInt = 0 := by
+  have a : ¬ x < 0 := fun h => h1 (decide_eq_true h)
+  have b : ¬ x > 0 := fun h => h2 (decide_eq_true h)
+  rw [i16_lt_lit] at a
+  rw [gt_iff_lt, i16_lt_lit] at b
+  simp at a b; omega
+
 /-! ### dropping digits -/
 def Dr (P : Nat) (t f : Int8) (i : Nat) (cur : Nat) (trunc : Int8) : Prop :=
   cur = P / 10 ^ i ∧ trunc = if P % 10 ^ i = 0 then t else f
